@@ -5,7 +5,7 @@ import json, glob, os, math
 V = os.path.dirname(os.path.dirname(os.path.abspath(__file__)))
 # absolute floors for rules whose sites a legitimate refactoring merges into one shared worker (the rule's own minimum
 # - raise AnalysisBroken below it - is the backstop)
-OVERRIDE = {"R-EMPTYOK": 8}
+OVERRIDE = {"R-EMPTYOK": 8, "R-DYNKEY": 1}
 fl = {}
 for f in sorted(glob.glob(os.path.join(V, "evidence", "C*.json"))):
     e = json.load(open(f))
